@@ -1,6 +1,7 @@
 package kvlab
 
 import (
+	"fmt"
 	"math/rand"
 	"time"
 )
@@ -26,8 +27,56 @@ type Gen struct {
 	// LeaseTokens, if set, are the token values imported transfers draw from
 	// (instead of far-future ones).
 	LeaseTokens []uint64
-	total       int
-	kinds       []OpKind
+	// BulkMax > 0: about one in five Import / Export / RemoveKeys operations carries many
+	// distinct keys (sizes around powers of two and round numbers up to BulkMax) instead of
+	// 1-4: a real hand-over moves a whole key range at once, and batching/chunking code only
+	// shows its seams at such sizes.
+	BulkMax  int
+	BulkOps  int // number of bulk operations generated so far
+	bulkPool [][]byte
+	total    int
+	kinds    []OpKind
+}
+
+var bulkSizes = []int{15, 16, 17, 31, 32, 33, 63, 64, 65, 99, 100, 101, 127, 128, 129, 199, 200, 201, 255, 256, 257, 400, 511, 512, 513, 1000, 1023, 1024, 1025}
+
+// bulkKeys returns n distinct keys (mostly from a pool of synthetic names, a few of the
+// ordinary keys mixed in), or nil when this operation is not to be a bulk one.
+func (g *Gen) bulkKeys() [][]byte {
+	if g.BulkMax <= 0 || g.Rng.Intn(5) != 0 {
+		return nil
+	}
+	var sizes []int
+	for _, s := range bulkSizes {
+		if s <= g.BulkMax {
+			sizes = append(sizes, s)
+		}
+	}
+	if len(sizes) == 0 {
+		sizes = []int{g.BulkMax}
+	}
+	n := sizes[g.Rng.Intn(len(sizes))]
+	for len(g.bulkPool) < g.BulkMax+8 {
+		g.bulkPool = append(g.bulkPool, []byte(fmt.Sprintf("bulk/%04d", len(g.bulkPool))))
+	}
+	perm := g.Rng.Perm(len(g.bulkPool))
+	seen := map[string]bool{}
+	out := make([][]byte, 0, n)
+	for _, k := range g.Keys {
+		if len(out) < 3 && g.Rng.Intn(2) == 0 && !seen[string(k)] {
+			seen[string(k)] = true
+			out = append(out, k)
+		}
+	}
+	for _, i := range perm {
+		if len(out) >= n {
+			break
+		}
+		out = append(out, g.bulkPool[i])
+	}
+	g.Rng.Shuffle(len(out), func(i, j int) { out[i], out[j] = out[j], out[i] })
+	g.BulkOps++
+	return out
 }
 
 // DefaultKeys collide under DegenerateHash (lengths 0..3 mod 3) and are
@@ -164,6 +213,9 @@ func (g *Gen) Next() Op {
 		}
 	case OpImport:
 		op.Keys = g.keySubset(3)
+		if bk := g.bulkKeys(); bk != nil {
+			op.Keys = bk
+		}
 		op.Vals = make([]Transfer, len(op.Keys))
 		for i := range op.Vals {
 			var t Transfer
@@ -187,6 +239,9 @@ func (g *Gen) Next() Op {
 		}
 	case OpExport, OpRemoveKeys:
 		op.Keys = g.keySubset(4)
+		if bk := g.bulkKeys(); bk != nil {
+			op.Keys = bk
+		}
 	case OpAcquire:
 		op.Key, op.TTL = g.key(), g.ttl()
 	case OpRenew:
